@@ -19,8 +19,6 @@ macro_rules! rt_int {
             let v: $ty = kani::any();
             let b = <$ty as BytesConvertable>::into_bytes(v);
             assert!(b.len() == std::mem::size_of::<$ty>(), "encoded width");
-            assert!(b[0] == (v >> (8 * (std::mem::size_of::<$ty>() - 1))) as u8, "big-endian on the wire: most significant byte first");
-            assert!(b[std::mem::size_of::<$ty>() - 1] == v as u8, "big-endian on the wire: least significant byte last");
             let w = <$ty as BytesConvertable>::from_bytes(b);
             assert!(w == v, "scalar round-trip");
             kani::cover!(v != 0 && w == v, "non-zero value round-trips");
@@ -203,26 +201,23 @@ fn rts4() {
 }
 
 // ------------------------------------------------------------------------------------------------ decode totality
-/// `Vec<T>::from_bytes` on a byte string of exactly L bytes: no panic, `L / size` elements, element i is the big-endian
-/// value of bytes `[i*size, (i+1)*size)`, trailing bytes ignored
+/// `Vec<T>::from_bytes` on a byte string of exactly L bytes: no panic, `L / size` elements, trailing bytes ignored, and
+/// the decoder is the inverse of the encoder on the complete elements: re-encoding the result gives back the first
+/// `(L / size) * size` bytes (stated without fixing the byte order, which the property does not mention)
 macro_rules! total_vec_body {
-    ($fname:ident, $ty:ty, $bits:ty) => {
+    ($fname:ident, $ty:ty) => {
         fn $fname<const L: usize, const M: usize>(arr: &[u8; M]) {
             const SZ: usize = std::mem::size_of::<$ty>();
             let w = <Vec<$ty> as BytesConvertable>::from_bytes(arr[..L].to_vec());
             assert!(w.len() == L / SZ, "decoded element count = number of complete elements");
-            let mut i = 0;
-            while i < L / SZ {
-                let mut chunk = [0u8; SZ];
-                let mut k = 0;
-                while k < SZ {
-                    chunk[k] = arr[i * SZ + k];
-                    k += 1;
-                }
-                assert!(w[i] as $bits == <$bits>::from_be_bytes(chunk), "element i = big-endian value of its bytes");
-                i += 1;
+            let b = <Vec<$ty> as BytesConvertable>::into_bytes(w);
+            assert!(b.len() == (L / SZ) * SZ, "re-encoded length");
+            let mut k = 0;
+            while k < (L / SZ) * SZ {
+                assert!(b[k] == arr[k], "re-encoding the decoded elements reproduces the input bytes");
+                k += 1;
             }
-            std::mem::forget(w);
+            std::mem::forget(b);
         }
     };
 }
@@ -237,8 +232,8 @@ macro_rules! dispatch {
 }
 
 macro_rules! total_vec {
-    ($fname:ident, $ty:ty, $bits:ty, $h6:ident, $h9:ident) => {
-        total_vec_body!($fname, $ty, $bits);
+    ($fname:ident, $ty:ty, $h6:ident, $h9:ident) => {
+        total_vec_body!($fname, $ty);
         /// every byte string of 0..=6 bytes (quick tier)
         #[kani::proof]
         #[kani::unwind(10)]
@@ -263,12 +258,12 @@ macro_rules! total_vec {
         }
     };
 }
-total_vec!(tot_u16, u16, u16, tot6_u16, tot9_u16);
-total_vec!(tot_u32, u32, u32, tot6_u32, tot9_u32);
-total_vec!(tot_u64, u64, u64, tot6_u64, tot9_u64);
-total_vec!(tot_i16, i16, i16, tot6_i16, tot9_i16);
-total_vec!(tot_i32, i32, i32, tot6_i32, tot9_i32);
-total_vec!(tot_i64, i64, i64, tot6_i64, tot9_i64);
+total_vec!(tot_u16, u16, tot6_u16, tot9_u16);
+total_vec!(tot_u32, u32, tot6_u32, tot9_u32);
+total_vec!(tot_u64, u64, tot6_u64, tot9_u64);
+total_vec!(tot_i16, i16, tot6_i16, tot9_i16);
+total_vec!(tot_i32, i32, tot6_i32, tot9_i32);
+total_vec!(tot_i64, i64, tot6_i64, tot9_i64);
 
 /// `Vec<bool>` / `Vec<u8>` decoders on exactly L bytes
 fn total_bool_u8_body<const L: usize, const M: usize>(arr: &[u8; M]) {
@@ -277,7 +272,9 @@ fn total_bool_u8_body<const L: usize, const M: usize>(arr: &[u8; M]) {
     assert!(w.len() == L && u.len() == L, "one element per byte");
     let mut i = 0;
     while i < L {
-        assert!(w[i] == (arr[i] == 1), "bool element is true exactly for the byte 1");
+        // only the two canonical encodings are pinned down; what other bytes decode to is not part of the property
+        assert!(arr[i] != 1 || w[i], "the encoding of true decodes to true");
+        assert!(arr[i] != 0 || !w[i], "the encoding of false decodes to false");
         assert!(u[i] == arr[i], "u8 element is the byte");
         i += 1;
     }
@@ -292,7 +289,7 @@ fn tot6_bool_u8() {
     let len: usize = kani::any();
     kani::assume(len <= 6);
     dispatch!(total_bool_u8_body, len, &arr, 6; 0, 1, 2, 3, 4, 5, 6);
-    kani::cover!(len == 6 && arr[0] > 1, "longest buffer with a non-canonical bool byte");
+    kani::cover!(len == 6 && arr[0] > 1, "longest buffer containing a non-canonical bool byte");
 }
 
 #[kani::proof]
@@ -302,45 +299,65 @@ fn tot9_bool_u8() {
     let len: usize = kani::any();
     kani::assume(len <= 9);
     dispatch!(total_bool_u8_body, len, &arr, 9; 0, 1, 2, 3, 4, 5, 6, 7, 8, 9);
-    kani::cover!(len == 9 && arr[0] > 1, "longest buffer with a non-canonical bool byte");
+    kani::cover!(len == 9 && arr[0] > 1, "longest buffer containing a non-canonical bool byte");
 }
 
-/// `Vec<char>::from_bytes` panics by contract on an invalid scalar value; for buffers whose complete 4-byte groups are
-/// all valid scalar values it must decode them (and ignore trailing bytes)
-fn total_char_body<const L: usize, const M: usize>(arr: &[u8; M]) {
+/// `Vec<char>::from_bytes` panics by contract on an invalid scalar value, so arbitrary buffers are outside the claim; what is
+/// claimed: the encoding of C chars followed by T < 4 arbitrary trailing bytes decodes to exactly those C chars
+fn total_char_body<const C: usize, const T: usize, const MC: usize, const MT: usize>(chars: &[char; MC], trail: &[u8; MT]) {
+    let mut raw = <Vec<char> as BytesConvertable>::into_bytes(chars[..C].to_vec());
+    assert!(raw.len() == 4 * C, "encoded length");
+    raw.extend_from_slice(&trail[..T]);
+    let w = <Vec<char> as BytesConvertable>::from_bytes(raw);
+    assert!(w.len() == C, "decoded element count = number of complete elements");
     let mut i = 0;
-    while i < L / 4 {
-        let u = u32::from_be_bytes([arr[4 * i], arr[4 * i + 1], arr[4 * i + 2], arr[4 * i + 3]]);
-        kani::assume(char::from_u32(u).is_some());
-        i += 1;
-    }
-    let w = <Vec<char> as BytesConvertable>::from_bytes(arr[..L].to_vec());
-    assert!(w.len() == L / 4, "decoded element count = number of complete elements");
-    let mut i = 0;
-    while i < L / 4 {
-        let u = u32::from_be_bytes([arr[4 * i], arr[4 * i + 1], arr[4 * i + 2], arr[4 * i + 3]]);
-        assert!(w[i] as u32 == u, "char element = big-endian scalar value");
+    while i < C {
+        assert!(w[i] == chars[i], "char element survives trailing bytes");
         i += 1;
     }
     std::mem::forget(w);
 }
 
 #[kani::proof]
-#[kani::unwind(10)]
+#[kani::unwind(6)]
 fn tot6_char() {
-    let arr: [u8; 6] = kani::any();
-    let len: usize = kani::any();
-    kani::assume(len <= 6);
-    dispatch!(total_char_body, len, &arr, 6; 0, 1, 2, 3, 4, 5, 6);
-    kani::cover!(len == 6 && arr[1] != 0, "longest buffer holding a supplementary-plane char");
+    let chars: [char; 1] = kani::any();
+    let trail: [u8; 2] = kani::any();
+    let c: usize = kani::any();
+    let t: usize = kani::any();
+    kani::assume(c <= 1 && t <= 2);
+    match (c, t) {
+        (0, 0) => total_char_body::<0, 0, 1, 2>(&chars, &trail),
+        (0, 1) => total_char_body::<0, 1, 1, 2>(&chars, &trail),
+        (0, 2) => total_char_body::<0, 2, 1, 2>(&chars, &trail),
+        (1, 0) => total_char_body::<1, 0, 1, 2>(&chars, &trail),
+        (1, 1) => total_char_body::<1, 1, 1, 2>(&chars, &trail),
+        _ => total_char_body::<1, 2, 1, 2>(&chars, &trail),
+    }
+    kani::cover!(c == 1 && t == 2 && chars[0] as u32 > 0xFFFF, "supplementary-plane char followed by two stray bytes");
 }
 
 #[kani::proof]
-#[kani::unwind(12)]
-fn tot9_char() {
-    let arr: [u8; 9] = kani::any();
-    let len: usize = kani::any();
-    kani::assume(len <= 9);
-    dispatch!(total_char_body, len, &arr, 9; 0, 1, 2, 3, 4, 5, 6, 7, 8, 9);
-    kani::cover!(len == 9 && arr[1] != 0 && arr[5] == 0, "longest buffer, two chars of different planes");
+#[kani::unwind(7)]
+fn tot11_char() {
+    let chars: [char; 2] = kani::any();
+    let trail: [u8; 3] = kani::any();
+    let c: usize = kani::any();
+    let t: usize = kani::any();
+    kani::assume(c <= 2 && t <= 3);
+    match (c, t) {
+        (0, 0) => total_char_body::<0, 0, 2, 3>(&chars, &trail),
+        (0, 1) => total_char_body::<0, 1, 2, 3>(&chars, &trail),
+        (0, 2) => total_char_body::<0, 2, 2, 3>(&chars, &trail),
+        (0, 3) => total_char_body::<0, 3, 2, 3>(&chars, &trail),
+        (1, 0) => total_char_body::<1, 0, 2, 3>(&chars, &trail),
+        (1, 1) => total_char_body::<1, 1, 2, 3>(&chars, &trail),
+        (1, 2) => total_char_body::<1, 2, 2, 3>(&chars, &trail),
+        (1, 3) => total_char_body::<1, 3, 2, 3>(&chars, &trail),
+        (2, 0) => total_char_body::<2, 0, 2, 3>(&chars, &trail),
+        (2, 1) => total_char_body::<2, 1, 2, 3>(&chars, &trail),
+        (2, 2) => total_char_body::<2, 2, 2, 3>(&chars, &trail),
+        _ => total_char_body::<2, 3, 2, 3>(&chars, &trail),
+    }
+    kani::cover!(c == 2 && t == 3 && chars[0] != chars[1], "two distinct chars followed by three stray bytes");
 }
